@@ -50,6 +50,11 @@ def gen(rng, tier):
     for order in (1, 2):
         for samp in (True, False):
             yield {"kind": "trace", "sub": rng.randrange(1 << 30), "order": order, "samp": samp}
+    # a two-site user operator with a tiny prefactor hitting an entangled bond (rank > 2 after ten steps on four sites): the jumped
+    # state has squared norm far below the truncation threshold, and must still be the renormalised L|psi>
+    for order in (1, 2):
+        yield {"kind": "simrun", "sub": rng.randrange(1 << 30), "L": 4, "n": 15, "dt": 0.1, "order": order, "samp": True,
+               "jumps": [{"m": 10, "site": 1, "two": True, "op": "user", "scale": rng.choice([1e-7, 1e-8])}]}
     for k in plan:
         yield {"kind": k, "sub": rng.randrange(1 << 30)}
 
@@ -299,6 +304,8 @@ def build_jumps(rng, L, n, dt, times, spec=None):
             dim = 4 if two else 2
             mat = np.array([[complex(rng.uniform(-1, 1), rng.uniform(-1, 1)) for _ in range(dim)] for _ in range(dim)])
             mat = mat + 1.5 * np.eye(dim)      # keep it well away from annihilating the state
+            # the operator's scale is irrelevant after the renormalisation: a tiny or huge user matrix must give the same values
+            mat = mat * it.setdefault("scale", rng.choice([1.0, 1.0, 1e-5, 1e-7, 1e-7, 1e3]))
             d["name"] = "user"
             d["matrix"] = mat
         elif it["op"] == "lib":
@@ -314,7 +321,7 @@ def build_jumps(rng, L, n, dt, times, spec=None):
 
 def run_simrun(inp):
     rng = random.Random(inp["sub"])
-    L = inp.get("L", rng.choice([2, 2, 3]))
+    L = inp.get("L", rng.choice([2, 2, 3, 4]))           # 4 sites: the middle bond can carry rank > 2 when a jump hits it
     order = inp.get("order", rng.choice([1, 2]))
     samp = inp.get("samp", rng.random() < 0.75)
     n = inp.get("n", rng.choice([3, 4, 5, 6, 7]))        # grid points
@@ -343,6 +350,10 @@ def run_simrun(inp):
     ref0 = pc.dense_reference(psi0, Hd, dt, n - 1, {}, mats)
     probs = []
     mfirst = min(dense_ops)
+    # on four sites a split may discard weight up to the threshold 1e-12 of these runs, i.e. amplitudes of 1e-6 (on two and three
+    # sites every bond is at most min_bond_dim = 2 and nothing is ever discarded): the comparison with the dense reference allows 1e-4
+    # there (largest clean-tree deviation seen over 8 seeds: 1.4e-6; a jump applied a step early/late or twice: > 1e-2)
+    ORACLE_TOL = globals()["ORACLE_TOL"] if L <= 3 else 1e-4  # noqa: N806
     if samp:
         if res.shape != ref.shape:
             probs.append(f"result shape {res.shape}, expected {ref.shape}")
